@@ -80,3 +80,30 @@ theorem readBits_lowBits (v : Word) (n : Nat) (rest : Bits) (hn : n ≤ 64) (hv 
   rw [readBits, h, wordOfBits_lowBits v n hn hv]
 
 end Stef
+
+namespace Stef
+
+/-- concatenating two big-endian fields: `(a << n) | b` on `m + n` bits. -/
+theorem lowBits_concat (a b : Word) (m n : Nat) (hmn : m + n ≤ 64) (hb : b.toNat < 2 ^ n) :
+    lowBits ((a <<< n) ||| b) (m + n) = lowBits a m ++ lowBits b n := by
+  apply List.ext_getElem
+  · simp [lowBits]
+  · intro i h1 h2
+    have hi : i < m + n := by simpa [lowBits] using h1
+    simp only [lowBits, List.getElem_map, List.getElem_range, List.getElem_append, List.length_map,
+      List.length_range, BitVec.getLsbD_or, BitVec.getLsbD_shiftLeft]
+    by_cases h : i < m
+    · simp only [h, ↓reduceDIte]
+      have hb0 : b.getLsbD (m + n - 1 - i) = false := getLsbD_of_lt_two_pow b n _ hb (by omega)
+      have c1 : m + n - 1 - i < 64 := by omega
+      have c2 : ¬ (m + n - 1 - i < n) := by omega
+      have e : m + n - 1 - i - n = m - 1 - i := by omega
+      rw [hb0, e]
+      simp [c1, c2]
+    · simp only [h, ↓reduceDIte]
+      have c2 : m + n - 1 - i < n := by omega
+      have e : m + n - 1 - i = n - 1 - (i - m) := by omega
+      rw [e] at c2 ⊢
+      simp [c2]
+
+end Stef
